@@ -89,6 +89,9 @@ pub enum Site {
     Call(u64),
     /// n-th granted *mutating* backend call (0-based, grant order).
     Mutation(u64),
+    /// n-th granted mutating backend call whose path ends with `suffix`
+    /// (0-based): aims a fault at one kind of object instead of a position.
+    MutationOf { suffix: String, nth: u64 },
 }
 
 #[derive(Clone, Debug, PartialEq, Eq, Serialize, Deserialize)]
@@ -221,6 +224,7 @@ pub struct St {
     next_op_id: u64,
     pub calls: u64,
     pub mutations: u64,
+    suffix_hits: std::collections::BTreeMap<String, u64>,
     pub step: u64,
     step_cap: u64,
     pub crashed: bool,
@@ -300,6 +304,7 @@ impl Sim {
             next_op_id: 0,
             calls: 0,
             mutations: 0,
+            suffix_hits: Default::default(),
             step: 0,
             step_cap: cfg.step_cap,
             crashed: false,
@@ -455,9 +460,18 @@ impl Sim {
         if kind != OpKind::Yield {
             let mut hit: Option<usize> = None;
             for (i, f) in st.faults.iter().enumerate() {
-                let m = match f.site {
-                    Site::Call(n) => n == call_idx,
-                    Site::Mutation(n) => kind.is_mutation() && n == mut_idx,
+                let m = match &f.site {
+                    Site::Call(n) => *n == call_idx,
+                    Site::Mutation(n) => kind.is_mutation() && *n == mut_idx,
+                    Site::MutationOf { suffix, nth } => {
+                        if kind.is_mutation() && path.ends_with(suffix.as_str()) {
+                            let seen = st.suffix_hits.entry(suffix.clone()).or_insert(0);
+                            *seen += 1;
+                            *seen - 1 == *nth
+                        } else {
+                            false
+                        }
+                    }
                 };
                 if m {
                     hit = Some(i);
